@@ -18,6 +18,7 @@
  *       policy=r seed=77 stay=50 fam=0 famarg=0 sched=1:0,0:0 prog=c100000:1000,f0:5000,E65536 dump=-
  *  prog ops: cI:O / fI:O / eI:O  one ZSTD_compressStream2 call (continue/flush/end) offering I more input bytes and O output bytes;
  *            EO / FO  repeat end / flush with all remaining input (E) or no new input (F) and O output bytes per call until it returns 0;
+ *            CI:O  repeat continue until I more bytes are consumed;
  *            R  ZSTD_CCtx_reset(session_only) (abort when a frame is open);  Ln  set compressionLevel n (mid-frame allowed);
  *            Xn the n-th allocation made by a WORKER thread from now on fails;  Wn  set nbWorkers n (between frames)
  */
@@ -183,7 +184,25 @@ static void print_state(void) {
  * evaluated on the real fields; reads of consumed are exact because every other thread is stopped) */
 static void range_oracle(void) {
     ZSTDMT_CCtx* m = MT(); unsigned id;
-    if (!m || !m->jobs || m->inBuff.buffer.start == NULL) return;
+    if (!m || !m->jobs) return;
+    /* a job created while an OLDER job is still unfinished must not have its source inside that job's source or prefix
+     * (the caller wrote that source into the round buffer while the older job could read it) */
+    {   unsigned const last = m->nextJobID + (m->jobReady ? 1 : 0); unsigned a, b;
+        if (last - m->doneJobID <= m->jobIDMask + 1)
+        for (a = m->doneJobID; a < m->nextJobID; a++) {
+            ZSTDMT_jobDescription* ja = &m->jobs[a & m->jobIDMask];
+            if (ja->jobID != a || ja->consumed >= ja->src.size) continue;
+            for (b = a + 1; b < last; b++) {
+                ZSTDMT_jobDescription* jb = &m->jobs[b & m->jobIDMask];
+                const BYTE* s0 = (const BYTE*)jb->src.start; const BYTE* s1 = s0 + jb->src.size;
+                const BYTE* a0 = (const BYTE*)ja->src.start; const BYTE* a1 = a0 + ja->src.size;
+                const BYTE* p0 = (const BYTE*)ja->prefix.start; const BYTE* p1 = p0 + ja->prefix.size;
+                if (jb->jobID != b || jb->src.size == 0) continue;
+                if ((s0 < a1 && a0 < s1) || (ja->prefix.size && s0 < p1 && p0 < s1)) { oracle("a job's source was written over the source/prefix of an older unfinished job"); return; }
+            }
+        }
+    }
+    if (m->inBuff.buffer.start == NULL) return;
     {   const BYTE* b0 = (const BYTE*)m->inBuff.buffer.start; const BYTE* b1 = b0 + m->targetSectionSize;
         for (id = m->doneJobID; id < m->nextJobID; id++) {
             ZSTDMT_jobDescription* j = &m->jobs[id & m->jobIDMask];
@@ -272,6 +291,11 @@ static int choose_fam(int step, int me, const int* en, int n) {
         for (i = 0; i < n; i++) if (en[i] == me) return me;
         return en[0];
     }
+    if (C.fam == 7) {   /* starve the pool thread that runs job number famarg (once it has picked it up), rotate among the others */
+        int k;
+        for (k = 1; k <= n; k++) { int c = en[(step + k) % n]; if (!(c > 0 && c < MAXT && cur_job[c] == C.famarg)) return c; }
+        return en[0];
+    }
     if (C.fam == 5) {   /* workers first (lowest job first), the caller only when no pool thread can run */
         for (i = 0; i < n; i++) if (en[i] != 0) return en[i];
         return 0;
@@ -345,6 +369,8 @@ static void run_prog(void) {
         case 'c': one_call(ZSTD_e_continue, (size_t)o->a, (size_t)o->b); break;
         case 'f': one_call(ZSTD_e_flush, (size_t)o->a, (size_t)o->b); break;
         case 'e': one_call(ZSTD_e_end, (size_t)o->a, (size_t)o->b); break;
+        case 'C': { size_t const goal = g_inpos + (size_t)o->a > g_incap ? g_incap : g_inpos + (size_t)o->a; guard = 0;
+                    while (g_inpos < goal && ++guard < 20000) { r = one_call(ZSTD_e_continue, goal - g_inpos, (size_t)o->b); if (ZSTD_isError(r)) break; } break; }
         case 'E': guard = 0; do { r = one_call(ZSTD_e_end, g_incap - g_inpos, (size_t)o->a); } while (!ZSTD_isError(r) && r != 0 && ++guard < 100000); break;
         case 'F': guard = 0; do { r = one_call(ZSTD_e_flush, 0, (size_t)o->a); } while (!ZSTD_isError(r) && r != 0 && ++guard < 100000); break;
         case 'R': printf("OP reset\n"); ZSTD_CCtx_reset(g_cctx, ZSTD_reset_session_only); if (g_frame_open) { g_frame_open = 0; g_outpos = g_fout_off; } break;
